@@ -9,7 +9,6 @@ Import ListNotations.
 Definition num_truthy (x : xq) : bool := negb (xq_is_zero x).   (* value != 0.0 ; NaN is truthy *)
 Definition logic_number (b : bool) : xq := if b then Fin 1%Q else Fin 0%Q.
 
-Definition as_num (e : exp) : option xq := match e with Num x => Some x | _ => None end.
 Definition all_nums (l : list exp) : option (list xq) := mapM as_num l.
 
 (* second loop + final match of simplify_logic_nary over the flattened children *)
